@@ -106,4 +106,8 @@ def units():
     U.append(Unit(Contract(
         'OutputBuffer.flush_section', setup=setup_flush, cases=[{'$level': 'info'}], raises={}, let=LET,
         ensures=["self.buffer == B + S", "len(self.section) == 0"]), harness=None))
+    # handing the report over: pending section lines first, every line once, in order, and both buffers left empty
+    U.append(Unit(Contract(
+        'OutputBuffer.get_buffer', setup=lambda ip, st, fr, case: (setup_flush(ip, st, fr, case), fr.pop('sort_section'), {})[-1], cases=[{'$level': 'info'}], raises={}, let=LET,
+        ensures=["result == '\\n'.join(B + S)", "len(self.buffer) == 0", "len(self.section) == 0"]), harness=None))
     return U
